@@ -38,6 +38,8 @@ func loadKnownFindings(verifDir string) []KnownFinding {
 	return kf.Findings
 }
 
+var retrySem = make(chan struct{}, 3)
+
 func stripOrdinal(name string) string {
 	if i := strings.LastIndex(name, "@"); i >= 0 {
 		return name[:i]
@@ -154,7 +156,9 @@ func cmdCheck(args []string) int {
 		rwg.Add(1)
 		go func(r *OblResult) {
 			defer rwg.Done()
-			r2 := Solve(r.Script, 6*timeout, false)
+			retrySem <- struct{}{} // few at a time: the second attempt should not compete with itself
+			defer func() { <-retrySem }()
+			r2 := Solve(r.Script, 9*timeout, false)
 			if r2.Status == "unsat" || r2.Status == "sat" {
 				r2.Time += r.R.Time
 				r.R = r2
